@@ -53,6 +53,17 @@ func impl(in hv.Val) hv.Val {
 		cfg.RuleGrade, cfg.RuleProtos = hv.AsStr(r[0]), strs(r[1])
 		cfg.RuleChacha, cfg.RuleClientAuth = hv.AsBool(r[2]), hv.AsBool(r[3])
 	}
+	for _, e := range hv.AsList(c[12]) {
+		p := hv.AsList(e)
+		r := hv.AsList(p[1])
+		cfg.Rules = append(cfg.Rules, bfe_tls.VerifC41SniRule{Sni: hv.AsStr(p[0]), Grade: hv.AsStr(r[0]),
+			Protos: strs(r[1]), Chacha: hv.AsBool(r[2]), ClientAuth: hv.AsBool(r[3])})
+	}
+	for _, e := range hv.AsList(c[13]) {
+		p := hv.AsList(e)
+		cfg.Certs = append(cfg.Certs, bfe_tls.VerifC41Cert{Name: hv.AsStr(p[0]), Ecdsa: hv.AsBool(p[1])})
+	}
+	cfg.CacheMode = int(hv.AsInt(c[14]))
 	hello := &bfe_tls.VerifC41Hello{
 		Vers: uint16(hv.AsInt(h[0])), Suites: nilIfEmpty16(u16s(h[1])), Comp: hv.AsBytes(h[2]), Curves: u16s(h[3]),
 		Points: hv.AsBytes(h[4]), Alpn: strs(h[5]), Npn: hv.AsBool(h[6]), Sni: hv.AsStr(h[7]),
@@ -62,6 +73,11 @@ func impl(in hv.Val) hv.Val {
 	hello.TicketKind = int(hv.AsInt(tk[0]))
 	if hello.TicketKind == 2 {
 		hello.SVers, hello.SSuite, hello.SCerts = uint16(hv.AsInt(tk[1])), uint16(hv.AsInt(tk[2])), int(hv.AsInt(tk[3]))
+	}
+	ck := hv.AsList(h[10])
+	hello.CacheKind = int(hv.AsInt(ck[0]))
+	if hello.CacheKind == 2 {
+		hello.CVers, hello.CSuite, hello.CCerts = uint16(hv.AsInt(ck[1])), uint16(hv.AsInt(ck[2])), int(hv.AsInt(ck[3]))
 	}
 	r := bfe_tls.VerifC41Negotiate(cfg, hello)
 	if r.Err {
@@ -115,7 +131,79 @@ func protoList(r *hv.Rng) []string {
 	return out
 }
 
+var sniPool = []string{"a.com", "www.a.com", "WWW.A.COM", "a.com.", "x.y.com", "b.org..", "z", ".", "www.b.org", "A.com"}
+var certKeys = []string{"a.com", "*.a.com", "*.*.com", "*.*.*", "b.org", "*", "*.com", "www.b.org", "*.y.com", ""}
+var grades = []string{"A+", "A", "B", "C", "X"}
+
+func ruleVal(r *hv.Rng, grade string) hv.Val {
+	return hv.L{hv.S(grade), hv.LS(protoList(r)), hv.Bool(r.Bool()), hv.Bool(r.Chance(1, 5))}
+}
+
+// session entry (ticket or cache): none / undecodable / a session biased to be resumable
+func sessionVal(r *hv.Rng, vers int, suites []int) (hv.Val, bool) {
+	switch r.Intn(10) {
+	case 0:
+		return hv.L{hv.I(1)}, false
+	case 1, 2, 3, 4:
+		sv := versions[r.Intn(4)]
+		if r.Chance(2, 3) && vers >= 0x0300 && vers <= 0x0303 { // not above the client's
+			sv = 0x0300 + r.Intn(vers-0x0300+1)
+		}
+		ss := real[r.Intn(len(real))]
+		if len(suites) > 0 && r.Chance(3, 4) {
+			ss = suites[r.Intn(len(suites))]
+		}
+		return hv.L{hv.I(2), hv.I(sv), hv.I(ss), hv.I(pick(r, 0, 0, 1, 2))}, true
+	}
+	return hv.L{hv.I(0)}, false
+}
+
+// grade x version x RC4 boundary stream: default suite list, a client offering one RC4 and one or two
+// non-RC4 suites at exactly version v, every grade, both Ssl3PoodleProofed values, both preference orders
+func genGrade(r *hv.Rng, i int) (string, hv.Val) {
+	g := grades[i%5]
+	v := versions[(i/5)%4]
+	poodle := (i/20)%2 == 1
+	prefer := (i/40)%2 == 1
+	rc4 := pick(r, 0x0005, 0xc011)
+	other := pick(r, 0x002f, 0x0035, 0xc013, 0x000a)
+	suites := []int{rc4, other}
+	if r.Bool() {
+		suites = []int{other, rc4}
+	}
+	switch r.Intn(4) {
+	case 0:
+		suites = []int{rc4}
+	case 1:
+		suites = []int{other}
+	case 2:
+		suites = append(suites, 0xc02f)
+	}
+	maxV := pick(r, 0, 0, 0x0303, v)
+	minV := pick(r, 0, 0, 0x0300, v)
+	var ruleOpt hv.Val = hv.L{hv.L{hv.S(g), hv.LS(nil), hv.Bool(false), hv.Bool(false)}}
+	var rules hv.Val = hv.L{}
+	sni := ""
+	if r.Chance(1, 3) { // the grade comes from an SNI-selected rule; the default rule has another grade
+		sni = "a.com"
+		rules = hv.L{hv.L{hv.S(sni), hv.L{hv.S(g), hv.LS(nil), hv.Bool(false), hv.Bool(false)}}}
+		ruleOpt = hv.L{hv.L{hv.S(grades[(i+1+r.Intn(4))%5]), hv.LS(nil), hv.Bool(false), hv.Bool(false)}}
+	}
+	cfg := hv.L{hv.I(minV), hv.I(maxV), hv.Bool(prefer), hv.L{}, hv.L{}, hv.LS(nil), hv.L{}, hv.Bool(poodle),
+		hv.Bool(false), hv.I(0), hv.Bool(false), ruleOpt, rules, hv.L{}, hv.I(0)}
+	var tk hv.Val = hv.L{hv.I(0)}
+	if r.Chance(1, 4) { // resumption must respect the grade as well
+		tk = hv.L{hv.I(2), hv.I(pick(r, v, v, 0x0300, 0x0301)), hv.I(suites[r.Intn(len(suites))]), hv.I(0)}
+	}
+	hello := hv.L{hv.I(v), hv.LI(suites), hv.B([]byte{0}), hv.LI([]int{23}), hv.B([]byte{0}), hv.LS(nil), hv.Bool(false),
+		hv.S(sni), hv.B{}, tk, hv.L{hv.I(0)}}
+	return "grade-" + g, hv.L{cfg, hello}
+}
+
 func gen(r *hv.Rng, i int, tier string) (string, hv.Val) {
+	if i%8 == 0 {
+		return genGrade(r, i/8)
+	}
 	class := ""
 	// ---- config
 	minV, maxV := 0, 0
@@ -175,8 +263,34 @@ func gen(r *hv.Rng, i int, tier string) (string, hv.Val) {
 		grade := []string{"A+", "A", "B", "C", "C", "X"}[r.Intn(6)]
 		ruleOpt = hv.L{hv.L{hv.S(grade), hv.LS(protoList(r)), hv.Bool(r.Bool()), hv.Bool(r.Chance(1, 5))}}
 	}
+	// SNI-specific rules and named certificates (distinct keys)
+	rules := hv.L{}
+	if r.Chance(1, 3) {
+		seen := map[string]bool{}
+		for k := r.Range(1, 2); k > 0; k-- {
+			n := sniPool[r.Intn(len(sniPool))]
+			if !seen[n] {
+				seen[n] = true
+				rules = append(rules, hv.L{hv.S(n), ruleVal(r, grades[r.Intn(5)])})
+			}
+		}
+	}
+	certs := hv.L{}
+	if r.Chance(1, 3) {
+		seen := map[string]bool{}
+		for k := r.Range(1, 3); k > 0; k-- {
+			n := certKeys[r.Intn(len(certKeys))]
+			if !seen[n] {
+				seen[n] = true
+				certs = append(certs, hv.L{hv.S(n), hv.Bool(r.Bool())})
+			}
+		}
+	}
+	cacheMode := pick(r, 0, 0, 1, 1, 1, 2)
+	ticketsDisabled := r.Chance(1, 6)
 	cfg := hv.L{hv.I(minV), hv.I(maxV), hv.Bool(prefer), suitesOpt, hv.LI(prio), hv.LS(protoList(r)), hv.LI(curves),
-		hv.Bool(r.Bool()), hv.Bool(r.Chance(1, 6)), hv.I(r.Intn(5)), hv.Bool(r.Chance(1, 3)), ruleOpt}
+		hv.Bool(r.Bool()), hv.Bool(ticketsDisabled), hv.I(r.Intn(5)), hv.Bool(r.Chance(1, 3)), ruleOpt, rules, certs,
+		hv.I(cacheMode)}
 
 	// ---- hello
 	vers := versions[r.Intn(4)]
@@ -219,24 +333,24 @@ func gen(r *hv.Rng, i int, tier string) (string, hv.Val) {
 	if r.Chance(1, 3) {
 		sid = r.Bytes(32)
 	}
-	var tk hv.Val = hv.L{hv.I(0)}
-	switch r.Intn(10) {
-	case 0:
-		tk = hv.L{hv.I(1)}
-	case 1, 2, 3, 4:
-		sv := versions[r.Intn(4)]
-		if r.Chance(2, 3) && vers >= 0x0300 && vers <= 0x0303 { // not above the client's
-			sv = 0x0300 + r.Intn(vers-0x0300+1)
-		}
-		ss := real[r.Intn(len(real))]
-		if len(suites) > 0 && r.Chance(3, 4) {
-			ss = suites[r.Intn(len(suites))]
-		}
-		tk = hv.L{hv.I(2), hv.I(sv), hv.I(ss), hv.I(pick(r, 0, 0, 1, 2))}
+	tk, good := sessionVal(r, vers, suites)
+	if good {
 		class += "ticket-"
 	}
+	var ck hv.Val = hv.L{hv.I(0)}
+	if len(sid) > 0 || r.Chance(1, 10) {
+		var g2 bool
+		ck, g2 = sessionVal(r, vers, suites)
+		if g2 && cacheMode == 1 && len(sid) > 0 {
+			class += "cache-"
+		}
+	}
+	sni := ""
+	if r.Chance(3, 5) {
+		sni = sniPool[r.Intn(len(sniPool))]
+	}
 	hello := hv.L{hv.I(vers), hv.LI(suites), hv.B(comp), hv.LI(hcurves), hv.B(points), hv.LS(alpn), hv.Bool(r.Bool()),
-		hv.B(r.Bytes(r.Intn(6))), hv.B(sid), tk}
+		hv.S(sni), hv.B(sid), tk, ck}
 	if len(alpn) > 0 {
 		class += "alpn"
 	} else {
